@@ -357,16 +357,16 @@ Print Assumptions C14_walk_discipline_shape.
 
 (* every diagram of the result belongs to an endpoint of the project whose output name is the key and which passes
    --filter, and is the diagram that endpoint gets alone under the effective excludes *)
-Theorem C14_cmd_result_sound : forall rx m vi k fuel c eps r out x,
-  gen_integrations rx m vi k fuel c eps = COk r -> sassoc out r = Some x ->
+Theorem C14_cmd_result_sound : forall rx m vi k fuel c pf eps r out x,
+  gen_integrations rx m vi k fuel c pf eps = GRan (COk r) -> sassoc out r = Some x ->
   exists p, In p eps /\ named rx c p out /\ filter_pass rx c out = Some true /\ x = render_ep m vi k fuel c p.
 Proof. exact gen_integrations_sound. Qed.
 Print Assumptions C14_cmd_result_sound.
 
 (* an endpoint that passes the filter and shares its output name with no endpoint that would get another diagram has
    its own diagram under that name: no view is dropped because of another *)
-Theorem C14_cmd_result_own : forall rx m vi k fuel c eps l r p out,
-  name_views rx c eps = COk l -> gen_integrations rx m vi k fuel c eps = COk r ->
+Theorem C14_cmd_result_own : forall rx m vi k fuel c pf eps l r p out,
+  name_views rx c eps = COk l -> gen_integrations rx m vi k fuel c pf eps = GRan (COk r) ->
   In (p, out, true) l ->
   (forall p', In (p', out, true) l -> render_ep m vi k fuel c p' = render_ep m vi k fuel c p) ->
   sassoc out r = Some (render_ep m vi k fuel c p).
@@ -376,10 +376,11 @@ Print Assumptions C14_cmd_result_own.
 (* the default command line (-o %(epname).png, no --filter): every endpoint of the project has its own diagram under
    <endpoint name>.png (PARTIAL: endpoint names are distinct - they are keys of a map - and contain no newline, which
    Parse would write as the two characters \n; Example default_output_nonvacuous) *)
-Theorem C14_cmd_default_output_own_diagram : forall rx m vi k fuel c eps,
+Theorem C14_cmd_default_output_own_diagram : forall rx m vi k fuel c pf eps,
+  wf_formats rx pf = true ->
   c_output c = default_output -> c_filter c = EmptyString ->
   NoDup (map pe_name eps) -> (forall p, In p eps -> no_newline (pe_name p) = true) ->
-  exists r, gen_integrations rx m vi k fuel c eps = COk r /\
+  exists r, gen_integrations rx m vi k fuel c pf eps = GRan (COk r) /\
             forall p, In p eps -> sassoc (pe_name p ++ ".png")%string r = Some (render_ep m vi k fuel c p).
 Proof. exact default_output_own_diagram. Qed.
 Print Assumptions C14_cmd_default_output_own_diagram.
@@ -442,7 +443,8 @@ Theorem C14_cmd_checked_options_never_panic : forall rx c eps,
   exists l, name_views rx c eps = COk l.
 Proof. exact checked_options_never_panic. Qed.
 Print Assumptions C14_cmd_checked_options_never_panic.
-Theorem C14_cmd_empty_project_never_panics : forall rx m vi k fuel c, gen_integrations rx m vi k fuel c [] = COk [].
+Theorem C14_cmd_empty_project_never_panics : forall rx m vi k fuel c pf,
+  gen_integrations rx m vi k fuel c pf [] = (if wf_formats rx pf then GRan (COk []) else GFormatError).
 Proof. exact empty_project_never_panics. Qed.
 Print Assumptions C14_cmd_empty_project_never_panics.
 Theorem C14_cmd_parser_model_total : forall rx c eps, name_views rx c eps <> CPanicked PNever.
@@ -450,12 +452,39 @@ Proof. exact name_views_never_out_of_fuel. Qed.
 Print Assumptions C14_cmd_parser_model_total.
 (* REFUTED in general: `sysl ints -o '%(epname'` and `sysl ints --filter '('` die with a Go panic *)
 Theorem C14_cmd_no_panic_refuted :
-  gen_integrations FmtProps.rx_none [] {| names := []; mixins := []; app_r := []; ep_r := []; pubsub := [] |} true 1 (cli0 "%(epname" "") [one_ep]
-    = CPanicked (PFormat Fmt.UnclosedExpansion) /\
-  gen_integrations FmtProps.rx_none [] {| names := []; mixins := []; app_r := []; ep_r := []; pubsub := [] |} true 1 (cli0 "%(epname).png" "(") [one_ep]
-    = CPanicked PFilter.
+  gen_integrations FmtProps.rx_none [] {| names := []; mixins := []; app_r := []; ep_r := []; pubsub := [] |} true 1 (cli0 "%(epname" "") pf0 [one_ep]
+    = GRan (CPanicked (PFormat Fmt.UnclosedExpansion)) /\
+  gen_integrations FmtProps.rx_none [] {| names := []; mixins := []; app_r := []; ep_r := []; pubsub := [] |} true 1 (cli0 "%(epname).png" "(") pf0 [one_ep]
+    = GRan (CPanicked PFilter).
 Proof. exact cmd_no_panic_refuted. Qed.
 Print Assumptions C14_cmd_no_panic_refuted.
+
+(* since 8952ebf: a malformed appfmt / epfmt / title attribute of the project application, or a malformed -t, is the
+   command's ERROR for every command line and every project (endpoints or none, --output and --filter malformed or
+   not): never a panic, nothing generated; well-formed ones change nothing; and the formats the views go on to use
+   are the ones that were tried, so they never panic (FormatParser.Check decides for all values: C13) *)
+Theorem C14_cmd_malformed_project_format_is_error : forall rx m vi k fuel c pf eps,
+  wf_formats rx pf = false -> gen_integrations rx m vi k fuel c pf eps = GFormatError.
+Proof. exact malformed_project_format_is_error. Qed.
+Print Assumptions C14_cmd_malformed_project_format_is_error.
+Theorem C14_cmd_wellformed_project_formats : forall rx m vi k fuel c pf eps,
+  wf_formats rx pf = true -> gen_integrations rx m vi k fuel c pf eps = GRan (cmd_views rx m vi k fuel c eps).
+Proof. exact wellformed_project_formats. Qed.
+Print Assumptions C14_cmd_wellformed_project_formats.
+Theorem C14_cmd_checked_formats_never_panic : forall rx m vi k fuel c pf eps x f A,
+  gen_integrations rx m vi k fuel c pf eps = GRan x -> In f (formats_of pf) -> exists l, Fmt.parse rx f A = Fmt.POk l.
+Proof. exact checked_formats_never_panic. Qed.
+Print Assumptions C14_cmd_checked_formats_never_panic.
+Theorem C14_cmd_format_check_shape :
+  nth 5 gen_steps ""%string = "for _, format := range []string{ getAppfmtAttrOrDefault(app), getEpfmtAttr(app), getTitleFormat(app, intgenParams.Title), }"%string /\
+  nth 6 gen_steps ""%string = "loop: if err := cmdutils.MakeFormatParser(format).Check(); err != nil { return nil, err }"%string /\
+  format_getters = [("getAppfmtAttrOrDefault", ["a := project.GetAttrs()[""appfmt""].GetS()"; "if a != """" { return a }"; "return AppfmtDefault"]);
+                    ("getEpfmtAttr", ["return project.GetAttrs()[""epfmt""].GetS()"]);
+                    ("getTitleFormat", ["if t := project.GetAttrs()[""title""].GetS(); t != """" { return t }"; "return title"])]%string /\
+  fmt_check_src = ["defer func() { if r := recover(); r != nil { fp.Clear() err = fmt.Errorf(""invalid format string %q: %v"", fp.Self, r) } }()";
+                   "fp.Parse(map[string]string{})"; "return nil"]%string.
+Proof. exact shape_format_check. Qed.
+Print Assumptions C14_cmd_format_check_shape.
 
 (* the comparison of the command stream accepts every order of the model's Execute (so a mismatch is a run that NO
    order explains) *)
@@ -473,13 +502,13 @@ Theorem C14_cmd_source_shape :
   from_map = ["for k, v := range m { if err := OutputPlantuml(k, p.Value(), v, fs); err != nil { return err } }"; "return nil"]%string /\
   nth 2 cmd_execute ""%string = "return p.GenerateFromMap(result, args.Filesystem)"%string /\
   nth 1 gen_steps ""%string = "if len(intgenParams.Exclude) == 0 && intgenParams.Project != """" { intgenParams.Exclude = []string{intgenParams.Project} }"%string /\
-  nth 5 gen_steps ""%string = "for _, epname := range sortedSlice(app.GetEndpoints())"%string /\
-  nth 7 gen_steps ""%string = "loop: outputDir := of.FmtOutput(intgenParams.Project, epname, endpt.GetLongName(), endpt.GetAttrs())"%string /\
-  nth 8 gen_steps ""%string = "loop: if intgenParams.Filter != """" { re := regexp.MustCompile(intgenParams.Filter) if !re.MatchString(outputDir) { continue } }"%string /\
-  nth 11 gen_steps ""%string = "loop: b := MakeBuilderfromStmt(model, endpt.GetStmt(), excludeStrSet.Union(excludes), passthroughs)"%string /\
-  nth 13 gen_steps ""%string = "loop: args := &Args{intgenParams.Title, intgenParams.Project, intgenParams.Clustered, intgenParams.EPA}"%string /\
-  nth 14 gen_steps ""%string = "loop: r[outputDir] = GenerateView(args, intsParam, model)"%string /\
-  List.length gen_steps = 16%nat /\ List.length cmd_execute = 3%nat /\ List.length fmt_output_src = 3%nat /\
+  nth 7 gen_steps ""%string = "for _, epname := range sortedSlice(app.GetEndpoints())"%string /\
+  nth 9 gen_steps ""%string = "loop: outputDir := of.FmtOutput(intgenParams.Project, epname, endpt.GetLongName(), endpt.GetAttrs())"%string /\
+  nth 10 gen_steps ""%string = "loop: if intgenParams.Filter != """" { re := regexp.MustCompile(intgenParams.Filter) if !re.MatchString(outputDir) { continue } }"%string /\
+  nth 13 gen_steps ""%string = "loop: b := MakeBuilderfromStmt(model, endpt.GetStmt(), excludeStrSet.Union(excludes), passthroughs)"%string /\
+  nth 15 gen_steps ""%string = "loop: args := &Args{intgenParams.Title, intgenParams.Project, intgenParams.Clustered, intgenParams.EPA}"%string /\
+  nth 16 gen_steps ""%string = "loop: r[outputDir] = GenerateView(args, intsParam, model)"%string /\
+  List.length gen_steps = 18%nat /\ List.length cmd_execute = 3%nat /\ List.length fmt_output_src = 3%nat /\
   map (fun f => (fst (fst (fst f)), snd f)) cmd_flags =
     [("title", "StringVar &p.Title"); ("output", "StringVar &p.Output"); ("project", "StringVar &p.Project"); ("filter", "StringVar &p.Filter");
      ("exclude", "StringsVar &p.Exclude"); ("clustered", "BoolVar &p.Clustered"); ("epa", "BoolVar &p.EPA")]%string /\
